@@ -141,6 +141,13 @@ def impl_type(src_root, file, line):
     try:
         lines = open(os.path.join(src_root, file)).read().split("\n")
         txt = lines[line - 1]
+        if txt.lstrip().startswith("#[derive"):
+            # derived impl: the item it is attached to follows
+            for k in range(line, min(line + 6, len(lines))):
+                dm = re.match(r"\s*pub(?:\([\w:]+\))?\s+(?:struct|enum)\s+(\w+)", lines[k])
+                if dm:
+                    _impl_cache[(file, line)] = (dm.group(1), "derive")
+                    return _impl_cache[(file, line)]
         # may span lines; join a few
         j = line
         while "{" not in txt and j < len(lines):
